@@ -15,7 +15,10 @@
 //      public API (tapkee::embed, neighbors_method = Brute, eigen_method = Dense) plus the
 //      reference ingredients computed by the routines that own them (find_neighbors +
 //      linear_weight_matrix / tangent_weight_matrix / compute_laplacian):
-//        E ok P <D*d row major> mean <D> Y <N*d row major> M <N*N row major> dv <N>
+//        E ok shape .. chain <calls> <d> <smallest> <|lhs-own|/|own|> <|rhs-own|/|own|> <|P-result|>
+//             P <D*d row major> mean <D> Y <N*d row major> M <N*N row major> dv <N>
+//      (chain: the dense pencil embed() handed to generalized_eigendecomposition, recorded by a macro shim,
+//       against construct_*(same ingredients) called by the harness; P against the recorded result)
 //      (dv = degree vector for lpp, empty otherwise; the reference pencils X M X^T, X B X^T and all
 //       residuals are computed by the caller from these with plain full-matrix arithmetic in
 //       the harness helper command R below, or in Python)
@@ -51,9 +54,59 @@
 #include <tapkee/routines/laplacian_eigenmaps.hpp>
 #include <tapkee/routines/locally_linear.hpp>
 #else
-#include <tapkee/tapkee.hpp>
-#include <tapkee/callbacks/eigen_callbacks.hpp>
+// Recording shim (no source hook): the routine header is included FIRST (so its definitions are not
+// touched and `#pragma once` keeps it from being seen again), then the call sites in methods/*.hpp
+// `generalized_eigendecomposition(...)` are redirected to c10_record, which copies the dense pencil
+// the method hands over and the result it gets back, and forwards to the real function.
+#include <tapkee/defines.hpp>
+#include <tapkee/utils/logging.hpp>
+#include <tapkee/utils/naming.hpp>
+#include <tapkee/utils/time.hpp>
 #include <tapkee/routines/generalized_eigendecomposition.hpp>
+namespace tapkee
+{
+namespace tapkee_internal
+{
+struct C10Record
+{
+    int calls;
+    int d;
+    bool smallest;
+    DenseMatrix lhs, rhs, vecs;
+    C10Record() : calls(0), d(-1), smallest(false) {}
+};
+inline C10Record& c10_rec()
+{
+    static C10Record r;
+    return r;
+}
+template <class LMatrixType, class RMatrixType>
+EigendecompositionResult c10_record(const EigenMethod& m, const ComputationStrategy& s,
+                                    const EigendecompositionStrategy& es, const LMatrixType& lhs,
+                                    const RMatrixType& rhs, IndexType d)
+{
+    return (generalized_eigendecomposition)(m, s, es, lhs, rhs, d);
+}
+inline EigendecompositionResult c10_record(const EigenMethod& m, const ComputationStrategy& s,
+                                           const EigendecompositionStrategy& es, const DenseMatrix& lhs,
+                                           const DenseMatrix& rhs, IndexType d)
+{
+    C10Record& r = c10_rec();
+    r.calls++;
+    r.d = (int)d;
+    r.smallest = es.is(SmallestEigenvalues);
+    r.lhs = lhs;
+    r.rhs = rhs;
+    EigendecompositionResult res = (generalized_eigendecomposition)(m, s, es, lhs, rhs, d);
+    r.vecs = res.first;
+    return res;
+}
+} // namespace tapkee_internal
+} // namespace tapkee
+#define generalized_eigendecomposition(...) c10_record(__VA_ARGS__)
+#include <tapkee/tapkee.hpp>
+#undef generalized_eigendecomposition
+#include <tapkee/callbacks/eigen_callbacks.hpp>
 #include <tapkee/routines/laplacian_eigenmaps.hpp>
 #include <tapkee/routines/locally_linear.hpp>
 #endif
@@ -199,6 +252,7 @@ static int do_E(std::istringstream& is)
     eigen_distance_callback dcb(X);
     eigen_features_callback fcb(X);
     TapkeeOutput out;
+    c10_rec() = C10Record();
     DimensionReductionMethod meth = mi == 0 ? NeighborhoodPreservingEmbedding
                                   : mi == 1 ? LinearLocalTangentSpaceAlignment
                                             : LocalityPreservingProjections;
@@ -213,6 +267,7 @@ static int do_E(std::istringstream& is)
     typedef std::vector<IndexType>::iterator It;
     DenseMatrix M;
     DenseVector dv(0);
+    DenseSymmetricMatrixPair own;   // the routine's output on the same ingredients, called by the harness
     if (mi == 2)
     {
         PlainDistance<It, eigen_distance_callback> pd(dcb);
@@ -220,18 +275,39 @@ static int do_E(std::istringstream& is)
         Laplacian lap = compute_laplacian(idx.begin(), idx.end(), nb, dcb, width);
         M = DenseMatrix(lap.first);
         dv = lap.second.diagonal();
+        own = construct_locality_preserving_eigenproblem(lap.first, lap.second, idx.begin(), idx.end(), fcb, (IndexType)D);
     }
     else
     {
         KernelDistance<It, eigen_kernel_callback> kd(kcb);
         Neighbors nb = find_neighbors(NeighborsMethod(Brute), idx.begin(), idx.end(), kd, (IndexType)k, true);
         if (mi == 0)
-            M = DenseMatrix(linear_weight_matrix(idx.begin(), idx.end(), nb, kcb, nshift, kshift));
+        {
+            SparseWeightMatrix W = linear_weight_matrix(idx.begin(), idx.end(), nb, kcb, nshift, kshift);
+            M = DenseMatrix(W);
+            own = construct_neighborhood_preserving_eigenproblem(W, idx.begin(), idx.end(), fcb, (IndexType)D);
+        }
         else
-            M = DenseMatrix(tangent_weight_matrix(idx.begin(), idx.end(), nb, kcb, (IndexType)d, nshift));
+        {
+            SparseWeightMatrix W = tangent_weight_matrix(idx.begin(), idx.end(), nb, kcb, (IndexType)d, nshift);
+            M = DenseMatrix(W);
+            own = construct_lltsa_eigenproblem(W, idx.begin(), idx.end(), fcb, (IndexType)D);
+        }
     }
+    // structural chain: embed() = construct_* -> generalized_eigendecomposition -> project
+    const C10Record& rec = c10_rec();
+    double dl = -1, dr = -1, dp = -1;
+    if (rec.calls == 1 && rec.lhs.rows() == own.first.rows() && rec.lhs.cols() == own.first.cols() &&
+        rec.rhs.rows() == own.second.rows() && rec.rhs.cols() == own.second.cols())
+    {
+        dl = (rec.lhs - own.first).norm() / (own.first.norm() + 1e-300);
+        dr = (rec.rhs - own.second).norm() / (own.second.norm() + 1e-300);
+    }
+    if (rec.calls == 1 && rec.vecs.rows() == impl->proj_mat.rows() && rec.vecs.cols() == impl->proj_mat.cols())
+        dp = (rec.vecs - impl->proj_mat).norm();
     printf("E ok shape %d %d %d %d", (int)impl->proj_mat.rows(), (int)impl->proj_mat.cols(),
            (int)out.embedding.rows(), (int)out.embedding.cols());
+    printf(" chain %d %d %d %a %a %a", rec.calls, rec.d, rec.smallest ? 1 : 0, dl, dr, dp);
     pm("P", impl->proj_mat);
     pv("mean", impl->mean_vec);
     pm("Y", out.embedding);
